@@ -609,6 +609,8 @@ typedef struct {
     ABT_eventual ev;
     volatile int cb_count, done, round, state_hint, cb_ready, last_pool, backs, tok, cancelled;
     int cancel_self; /* at its suspension the unit has asked for its own migration and cancellation */
+    int revive_after; /* its last act is a migration request that is never served; it is revived afterwards */
+    volatile int rev_done;
 } mover_t;
 static volatile int g_partner_stop;
 static void partner_body(void *a)
@@ -769,9 +771,31 @@ static void mover_body(void *arg)
         EV("\"e\":\"Back\",\"u\":%d,\"pool\":%d", m->id, m->last_pool);
         m->backs++;
     }
+    if (m->revive_after && g_nes > 1) {
+        /* accepted, but the unit ends before its next scheduling point: the request dies with this life */
+        int cur = last_pool_of_self();
+        request(m->id, m, 0, (cur + 1 + rnd(g_nes - 1)) % g_nes);
+    }
     m->tok = m->id * 10;
     m->done = 1;
     EV("\"e\":\"Finish\",\"u\":%d", m->id);
+}
+/* second life of a revived mover: no migration was requested in this life */
+static void mover_rev_body(void *arg)
+{
+    mover_t *m = (mover_t *)arg;
+    int rank = -1;
+    ABT_xstream_self_rank(&rank);
+    EV("\"e\":\"Start\",\"u\":%d,\"arg\":%d,\"es\":%d,\"n\":1", m->id, m->id * 10 + 1, rank);
+    EV("\"e\":\"Back\",\"u\":%d,\"pool\":%d", m->id, last_pool_of_self());
+    for (int r = 0; r < 2; r++) {
+        EV("\"e\":\"Yield\",\"u\":%d", m->id);
+        CHK(ABT_thread_yield());
+        EV("\"e\":\"Back\",\"u\":%d,\"pool\":%d", m->id, last_pool_of_self());
+    }
+    m->tok = m->id * 10 + 1;
+    EV("\"e\":\"Finish\",\"u\":%d", m->id);
+    m->rev_done = 1;
 }
 static int try_resume(int who, mover_t *m)
 {
@@ -928,6 +952,9 @@ static void scn_migrate(void)
         m->cancel_self = m->migratable && m->suspend_round >= 0 && g_nes > 1 && m->block_kind != 3 && rnd(3) == 0;
         if (m->cancel_self)
             m->self_req = 1; /* (no requests from the others for this unit) */
+        m->revive_after = m->migratable && !m->cancel_self && rnd(4) == 0;
+        if (m->revive_after && !m->self_req)
+            m->self_req = 1; /* (its own requests only: one requester at a time per unit) */
         ABT_thread_attr attr;
         CHK(ABT_thread_attr_create(&attr));
         CHK(ABT_thread_attr_set_stacksize(attr, 65536));
@@ -964,6 +991,20 @@ static void scn_migrate(void)
         while (!g_ext_done)
             pause_any(0);
         pthread_join(g_ext, NULL);
+    }
+    for (int i = 1; i <= g_nm; i++) {
+        mover_t *m = &MV[i];
+        if (!m->revive_after || m->cancelled)
+            continue;
+        /* revived into some pool: it runs there, and nothing of its first life's request is left */
+        CHK(ABT_thread_join(m->th));
+        int p = rnd(g_nes);
+        m->cb_count = 0;
+        EV("\"e\":\"Revive\",\"by\":0,\"u\":%d,\"arg\":%d,\"pool\":%d", i, i * 10 + 1, p);
+        CHK(ABT_thread_revive(g_pool[p][0], mover_rev_body, m, &m->th));
+        EV("\"e\":\"ReviveRet\",\"by\":0,\"u\":%d", i);
+        while (!m->rev_done)
+            pause_any(0);
     }
     for (int i = 1; i <= g_nm; i++) {
         EV("\"e\":\"FreeCall\",\"by\":0,\"u\":%d", i);
